@@ -163,3 +163,32 @@ def exit_socket_close_contract():
                       "len(calls('transport.close')) == (1 if had4 else 0)", "len(calls('transport6.close')) == (1 if had6 else 0)",
                       "len(calls('shutdown_task_manager')) == 1"],
              note="close() stops the socket's tasks and closes BOTH outside sockets, whichever of them exist")
+
+
+# ---------------------------------------------------------------------------------------------------------------------
+# an exit entry that becomes ENABLED while its removal is waiting out the grace period (the circuit's first data cell overtaken by the
+# destroy) is closed like any other enabled one: what counts is the state of the socket when the entry is dropped, not when the removal began
+def environment_may_enable(sock):
+    """what the rest of the node may do while the removal task is suspended: exit the first data of the circuit (TunnelExitSocket.enable)"""
+    if nondet_bool():
+        sock.enabled = True
+    return True
+
+
+def remove_exit_socket_grace_contract():
+    TCLS = f"resolve_class('{TC}::TunnelCommunity')"   # noqa: N806
+    SETTINGS = OBJ(f"{TC}::TunnelSettings", remove_tunnel_delay=REAL)   # noqa: N806
+    SEND_DESTROY = {f"{TC}::TunnelCommunity.send_destroy": {"event": "send_destroy", "note": "signed destroy to the adjacent hop (C05)"}}   # noqa: N806
+    contract(f"{TC}::TunnelCommunity.remove_exit_socket", "remove_exit_socket.closes-what-is-enabled-when-it-is-dropped",
+             vars={"hc1": HOP(), "sock": ROUTING(f"{ES}::TunnelExitSocket", hop=HOP(), enabled=BOOL, close=CALLABLE("close", raises=()),
+                                                 shutdown_task_manager=CALLABLE("sock_shutdown", raises=())),
+                   "self": OBJ(f"{TC}::TunnelCommunity", logger=LOGGER(), settings=SETTINGS, exit_sockets=EXPR("{sock.circuit_id: sock}")),
+                   "destroy": BOOL, "U": EXPR(f"undecorated({TCLS}, 'remove_exit_socket')")},
+             requires=["self.settings.remove_tunnel_delay >= 0"],
+             call="run_coro(U(self, sock.circuit_id, 'x', False, destroy))", raises=[], stubs=SEND_DESTROY,
+             on_effect={"await:sleep": ["environment_may_enable(sock)",
+                                        # the entry stays in the table (keys available to outgoing_crypto, visible to unload) while it waits
+                                        "sock.circuit_id in self.exit_sockets and self.exit_sockets[sock.circuit_id] is sock"]},
+             ensures=["len(self.exit_sockets) == 0", "len(calls('close')) == (1 if sock.enabled else 0)", "len(calls('sock_shutdown')) == 1"],
+             covers=["len(calls('close')) == 1", "len(calls('close')) == 0"],
+             note="no exit socket that was enabled at the moment its entry disappeared is left open")
